@@ -84,6 +84,7 @@ type CompW struct {
 	Events   []EvRec
 	Dawdle   int
 	OnPacket func(s xmpp.Sender, p stanza.Packet)
+	OnEvent  func(ev xmpp.Event) // the application's own reaction to an event (runs in the callback)
 }
 
 func NewCompW(e *Engine, secret string) *CompW {
@@ -131,6 +132,9 @@ func (w *CompW) Create() error {
 		st := xmpp.VerifEventState(ev)
 		w.Events = append(w.Events, EvRec{Seq: len(w.e.Log), At: w.e.Now(), State: st, Desc: ev.Description + ev.StreamError, Task: w.e.current})
 		w.e.Logf("cb.event", "state=%s %s", StateName(st), ev.StreamError)
+		if w.OnEvent != nil {
+			w.OnEvent(ev)
+		}
 		return nil
 	})
 	return nil
